@@ -44,7 +44,8 @@ def build(thorough):
     for lo in range(0, ncov, chunk):
         for swap in ((0, 1) if thorough else (0,)):
             ob(f'alg_cov[s1={lo}..{lo + chunk - 1},swap={swap}]', MFL, 'alg_cov',
-               dict(VH_FAM='cov', VH_NST=2 if thorough else 1, VH_S1LO=lo, VH_S1HI=lo + chunk, VH_SWAP=swap))
+               dict(VH_FAM='cov', VH_NST=2 if thorough else 1, VH_S1LO=lo, VH_S1HI=lo + chunk, VH_SWAP=swap),
+               timeout=min(T, 400))
     if thorough:
         for x in range(15):
             ob(f'alg_pair[x={x}]', MFL, 'alg_pair', dict(VH_FAM='pair', VH_MAXC=1, VH_P1LO=x, VH_P1HI=x + 1))
